@@ -137,9 +137,6 @@ func TestRoundTripAllCodePoints(t *testing.T) {
 				t.Fatalf("round trip U+%X: %x -> %x", cp, e, d)
 			}
 		}
-		if cp > 0x3000 && cp < 0x10000 && cp%7 != 0 {
-			continue
-		}
 	}
 	// escape/unescape over every code unit
 	for c := 0; c <= 0xFFFF; c++ {
